@@ -8,7 +8,7 @@ hook_commits = [l.split()[0] for l in hooks if "verif-hooks" in l]
 E1 = "E1 explorer over the real generator (harness/src/explore.rs)"
 checks = {
  "C01": ("explicit-state closure of the generator's abstract states through its entropy seam; oracle = reference pickle machine (pickletools.dis rules), bound to CPython by replay",
-         "Every transition is a complete generation of the real code (header, body, cleanup, STOP, FRAME patch) judged by a reference machine with the acceptance rule of pickletools.dis; the closure runs to fixpoint inside a box on stack depth and memo size, from the initial state and from scenario states (256-entry memo, 300-deep stack, 40 MARKs), for 6 protocols x {no mutators, all 7 safe mutators with every gate both ways}.",
+         "Every transition is a complete generation of the real code (header, body, cleanup, STOP, FRAME patch) judged by a reference machine with the acceptance rule of pickletools.dis; the closure runs to fixpoint inside a box on stack depth and memo size, from the initial state and from scenario states (256-entry memo, 300-deep stack, 40 MARKs), for 6 protocols x {no mutators, all 7 safe mutators with every gate both ways}; states one slot deeper than the box still run their operand-consuming opcodes; the third pickle of a reused generator and a PRNG seed sweep go through the same oracle.",
          "value draws explored over boundary alphabets with a per-step deviation budget; states merged by kind classes + enabled-opcode mask; PRNG mode covered by subsumption plus a labelled seed sweep; reference machine bound to CPython 3.11 pickletools on the collected outputs", "§4 C01"),
  "C02": ("same closure as C01 plus memo scenarios (255/256/257 entries) under OffByOne/MemoIndex(safe) at rate 1.0; oracle = memo rules of pickletools.dis in the reference machine",
          "GET resolves / PUT fresh / never on MARK, checked on every complete output of the closure and of the large-memo scenarios where the 1-byte BINPUT/BINGET forms run out.",
@@ -24,12 +24,12 @@ checks = {
  "C06": ("closure as C04 (all configurations incl. unsafe, FRAME coin both ways); oracle = at most one FRAME, directly after PROTO, length == bytes after its argument",
          "Both outcomes of the FRAME coin are explored in every state of the box for protocols 4 and 5; absence is checked for 0-3.", "as C04", "§4 C06"),
  "C07": ("replay of every run of a state box on other threads; enumeration of memo hash-map iteration orders through a hasher seam (all k! orders for k<=3 required); exhaustive schedules of 2-3 concurrent generators at draw granularity with preemption bound 0..2(3); fresh processes / rayon worker counts sampled",
-         "Purity is decided by enumeration where the nondeterminism source can be owned (hash order, schedules, threads) and sampled where it cannot (addresses, processes).",
+         "Purity is decided by enumeration where the nondeterminism source can be owned (hash order incl. 258-entry memos and mutator direction draws, schedules, threads, every ordered pair of 9 configurations in fresh processes) and sampled where it cannot (addresses, worker counts).",
          "interleavings only at entropy-draw granularity; pointer-hashed containers and ASLR only sampled", "§4 C07"),
  "C08": ("all call histories (generate_from_arbitrary x inputs, generate, reset) up to length 3 (4) on one generator; differential oracle against a fresh generator",
-         "No expected bytes are written by hand: the i-th call must return what a fresh, equally configured generator returns.", "call alphabet of 6 (8) calls; history length bound", "§4 C08"),
+         "No expected bytes are written by hand: the i-th call must return what a fresh, equally configured generator returns; size-class histories put a 14k-30k opcode result before small ones.", "call alphabet of 6 (8) calls plus range assignments; history length bound", "§4 C08"),
  "C09": ("alias-exact closure of all opcode sequences up to Lp; all 65,793 byte strings of length <= 2 x configurations; degenerate knob grid (NaN/out-of-range rates, min>max); 10k (30k) opcode strategies in child processes on a 2 MiB stack with a watchdog",
-         "Ok / non-empty / no unwind / child exit 0 on everything enumerated.", "termination is judged by a watchdog; harness built with overflow checks on", "§4 C09"),
+         "Ok / non-empty / no unwind / child exit 0 on everything enumerated; plus kind-keyed and alias-relation closures with value deviations; an in-process hang ends the check with a VIOLATION through the watchdog.", "termination is judged by a watchdog (45 s / 180 s per generation); harness built with overflow checks on", "§4 C09"),
  "C10": ("closure for the four flag combinations x {none, all-unsafe, reversed-unsafe} per protocol; oracle = histogram of decoded opcodes",
          "EXT*/buffer opcodes never occur unless their flag is on, also under type confusion and byte rewriting.", "as C04", "§4 C10"),
  "C11": ("every answer of the T draw for every (min,max) pair of a grid incl. inverted/zero; closure of the state box with a per-step accounting oracle (one opcode per step, tail <= 2T+1, total bounds)",
@@ -40,7 +40,7 @@ checks = {
          "Quick: every single-option deviation from two base points plus a diagonal mix (~300 CLI runs), batch file sets and exit status, 36 wrapper runs, ~2800 Python call sequences; thorough: full product.",
          "option -> builder mapping taken from the documentation", "§4 C13"),
  "C14": ("alias-exact closure of all opcode sequences up to Lp, each path re-run untraced between two readings of a per-thread live-heap counter; generate/reset/drop histories",
-         "Zero live bytes after drop for every explored path implies bounded memory for any sequence.", "counting global allocator in the harness process; path length bound", "§4 C14"),
+         "Zero live bytes after drop for every explored path implies bounded memory for any sequence; the alias-relation closure (kinds + which roots alias / reach each other) runs to fixpoint, cycle-building paths are repeated on one generator.", "counting global allocator in the harness process; depth box / path length bound", "§4 C14"),
  "C15": ("unit enumeration of every (mutator, method, value, gate answer over the f64 alphabet incl. exhausted input) at rate 0.0 and 1.0; closure of a state box per configuration with every gate draw enumerated",
          "Rate 0 never fires / rewrites, rate 1 lets the first applicable mutator fire, in both entropy modes.", "applicability table from the documentation; PRNG seeds are a sweep", "§4 C15"),
  "C16": ("exhaustive enumeration: every mutator x method x boundary value list x (gate + every byte string of length <= 2 + edge continuations + seeds); type confusion on all 256 first bytes x every wrong-type answer",
